@@ -76,14 +76,14 @@ def addSt (st : St) (b a : Nat) (v : Val) : St :=
     log := st.log ++ [.add ⟨(st.obj st.sub).offset, (st.obj st.sub).offset + st.tsize st.sub, b, a, v⟩] }
 
 theorem exprBody_add {st : St} {e : Expr} {v : Val} {b a : Nat} (pf : Nat) (hh : hit st e = .ok (.add v, st))
-    (hb : curBits st = .ok (b, a)) (hp : Plain st) : exprBody (pf + 1) st e = .ok (addSt st b a v) := by
+    (hb : curBits st = .ok (b, a)) (hp : Flat st st.sub) : exprBody (pf + 1) st e = .ok (addSt st b a v) := by
   unfold exprBody
   rw [placeExpr, hh]
   simp only [hb]
   have : ({ st with
       il := st.il.add ⟨(st.obj st.sub).offset, (st.obj st.sub).offset + st.tsize st.sub, b, a, v⟩,
       log := st.log ++ [.add ⟨(st.obj st.sub).offset, (st.obj st.sub).offset + st.tsize st.sub, b, a, v⟩] } : St).tinc st.sub
-      = false := hp.tinc _
+      = false := hp.tinc
   simp only [this]
   rfl
 
@@ -179,7 +179,7 @@ theorem run_cons {st stf : St} {ds : List Desig} {i : Ini} {rest : Items} (h : R
 
 /-! ## `braceClear`, `closeBrace` -/
 
-theorem braceClear_clear {st : St} {c : Nat} (hc : st.cur = some c) (hp : Plain st)
+theorem braceClear_clear {st : St} {c : Nat} (hc : st.cur = some c) (hp : Flat st st.sub)
     (hs : isScalarTy (st.obj st.sub).ty = false) :
     braceClear st = { st with
       il := st.il.clear (st.obj st.sub).offset ((st.obj st.sub).offset + (st.obj st.sub).ty.size),
@@ -202,12 +202,11 @@ theorem braceClear_nocur {st : St} (hc : st.cur = none) : braceClear st = st := 
   unfold braceClear
   simp [hc]
 
-theorem closeBrace_eq {st : St} {c : Nat} (hc : st.cur = some c) (hp : Plain st) :
+theorem closeBrace_eq {st : St} {c : Nat} (hc : st.cur = some c) (hp : st.tinc c = false) :
     closeBrace st = { st with sub := c, cur := prevCur st c } := by
   unfold closeBrace
   simp only [hc, Option.getD_some]
-  have : ({ st with sub := c, cur := prevCur st c } : St).tinc c = false := by
-    unfold St.tinc; simp [hp.inc]
+  have : ({ st with sub := c, cur := prevCur st c } : St).tinc c = false := hp
   simp only [this]
   rfl
 
@@ -230,29 +229,22 @@ theorem Exh.frame {st st' : St} {j m : Nat} (h : Exh st j) (hf : Frame m st st')
   exact ⟨pl, pos, ch, hw, hl.frame hf hj, hc⟩
 
 /-- `advance` pops the slots that are used up -/
-theorem advance_pops : ∀ (d : Nat) {st st' : St} {f k : Nat}, st.sub = k + 1 + d → Plain st →
+theorem advance_pops : ∀ (d : Nat) {st st' : St} {f k : Nat}, st.sub = k + 1 + d →
     (∀ j, k < j → j < st.sub → Exh st j) → advance f st = .ok st' →
-    ∃ f1 st1, advance f1 st1 = .ok st' ∧ st1.sub = k + 1 ∧ Frame (k + 1) st st1 ∧ st1.log = st.log ∧ Plain st1 := by
+    ∃ f1 st1, advance f1 st1 = .ok st' ∧ st1.sub = k + 1 ∧ Frame (k + 1) st st1 ∧ st1.log = st.log := by
   intro d
   induction d with
-  | zero => intro st st' f k hs hp _ e; exact ⟨f, st, e, hs, Frame.refl _ _, rfl, hp⟩
+  | zero => intro st st' f k hs _ e; exact ⟨f, st, e, hs, Frame.refl _ _, rfl⟩
   | succ d ih =>
-    intro st st' f k hs hp hex e
+    intro st st' f k hs hex e
     cases f with
     | zero => rw [advance] at e; cases e
     | succ f =>
       obtain ⟨pl, pos, ch, hw, hl, hc⟩ := hex (k + 1 + d) (by omega) (by omega)
-      obtain ⟨_, st1, e1, hs1, hf1, hl1, hp1⟩ := advance_pop (k := k + 1 + d) (by omega) hp hw hl hc e
-      obtain ⟨f2, st2, e2, hs2, hf2, hl2, hp2⟩ := ih (k := k) hs1 hp1
+      obtain ⟨_, st1, e1, hs1, hf1, hl1⟩ := advance_pop (k := k + 1 + d) (by omega) (flat_pos st (by omega)) hw hl hc e
+      obtain ⟨f2, st2, e2, hs2, hf2, hl2⟩ := ih (k := k) hs1
         (fun j h1 h2 => (hex j h1 (by omega)).frame hf1 (by omega)) e1
-      exact ⟨f2, st2, e2, hs2, (hf1.mono (by omega)).trans hf2 (Nat.le_refl _), by rw [hl2, hl1], hp2⟩
-
-theorem Frame.plain' {m : Nat} {st st' : St} (h : Frame m st st') (hp : Plain st)
-    (hm : (st'.obj m).ty = (st.obj m).ty) : Plain st' := by
-  refine h.plain hp ?_
-  cases m with
-  | zero => exact hm
-  | succ m => rw [h.low 0 (by omega)]
+      exact ⟨f2, st2, e2, hs2, (hf1.mono (by omega)).trans hf2 (Nat.le_refl _), by rw [hl2, hl1]⟩
 
 theorem curBits_congr {st st' : St} (hs : st'.sub = st.sub) (h : st.sub ≠ 0 → st'.obj (st.sub - 1) = st.obj (st.sub - 1)) :
     curBits st' = curBits st := by
